@@ -11,6 +11,14 @@ Sub-checks (every point of each finite lattice is evaluated, nothing is sampled)
             measured on a DTFT of get_impulse_response in a wide buffer (time -> frequency,
             an independent route) and cross-checked on get_frequency_response.
   reject    invalid (low_hz, high_hz) ranges must raise ValueError
+  construction_histories
+            two banks constructed one after the other in ONE process (every ordered pair of an alphabet
+            of configurations: all classes x all flag combinations, and variants in scale parameters /
+            rate / number of filters / range), both alive, each judged by the oracles of layout and
+            response.  The points of layout / triangle / response themselves are batches of consecutive
+            banks, each batch evaluated in one forked child of a process that never built a bank; a
+            violation's case is the bank alone (if it reproduces alone in a fresh child) or the batch up
+            to and including it, so that every case replays what was executed
   history   call histories on ONE bank object: every sequence of 2 (quick) / 3 (thorough) calls over
             {get_frequency_response(i, w, half), get_impulse_response(i, w)} x {first, last filter}
             x widths whose (width, half) pairs share bin counts; every returned array is held
@@ -29,12 +37,13 @@ trivial point), not reported: the property speaks about the filters of a bank th
 """
 import copy
 import functools
+import json
 import math
 import warnings
 
 import numpy as np
 
-from .. import cfg, computers, core
+from .. import cfg, computers, core, crash
 from ..refs import banks as ref
 
 LEVEL = "exploration"
@@ -338,11 +347,12 @@ def _constructible(b):
 
 
 @quiet
-def _layout(b):
-    r = build(b)
-    if r[0] != "ok":
-        return unconstructible(r)
-    bank = r[1]
+def _layout(b, bank=None):
+    if bank is None:
+        r = build(b)
+        if r[0] != "ok":
+            return unconstructible(r)
+        bank = r[1]
     tags = bank_tags(b)
     lay = ref_layout(b)
     nf = b["num_filts"]
@@ -466,7 +476,7 @@ def measure_ir(bank, b, i, lo, hi, cap):
     width = pos + gap + neg
     if width > cap:
         return ("skip", "too_long")
-    r = computers.call(bank.get_impulse_response, i, width)
+    r = limited_call(bank.get_impulse_response, i, width)
     if r[0] != "ok":
         return r
     h = np.asarray(r[1])
@@ -480,13 +490,42 @@ def measure_ir(bank, b, i, lo, hi, cap):
     return ("ir", h, ref.unwrap_times(width, nneg))
 
 
+class _TooSlow(BaseException):
+    """not an Exception: passes through computers.call"""
+
+
+CALL_CPU_LIMIT = 30.0   # seconds of CPU time for ONE response call; the slowest on the unchanged tree takes < 0.5
+
+
+def limited_call(fn, *args):
+    """computers.call(fn, *args) under a CPU-time limit -> its result, or ("slow",).
+    A bank whose supports are absurd (a defective layout constant) makes the library loop over millions of
+    periodic images; the property says nothing about time, so such a call is abandoned and counted, and
+    the check terminates."""
+    import signal
+
+    def on_timer(signum, frame):
+        raise _TooSlow()
+
+    old = signal.signal(signal.SIGPROF, on_timer)
+    signal.setitimer(signal.ITIMER_PROF, CALL_CPU_LIMIT)
+    try:
+        return computers.call(fn, *args)
+    except _TooSlow:
+        return ("slow",)
+    finally:
+        signal.setitimer(signal.ITIMER_PROF, 0)
+        signal.signal(signal.SIGPROF, old)
+
+
 @quiet
-def _response(pt, cap):
+def _response(pt, cap, bank=None):
     b = pt
-    r = build(b)
-    if r[0] != "ok":
-        return unconstructible(r)
-    bank = r[1]
+    if bank is None:
+        r = build(b)
+        if r[0] != "ok":
+            return unconstructible(r)
+        bank = r[1]
     kind = b["name"]
     tags = bank_tags(b)
     rate = float(b["sampling_rate"])
@@ -508,6 +547,14 @@ def _response(pt, cap):
     if bank.num_filts != b["num_filts"]:
         return core.result([], nontrivial=False, obs="num_filts")  # reported by `layout`
     own = [(float(a), float(c)) for a, c in bank.supports_hz]
+    cen = [float(x) for x in bank.centers_hz]
+    if any(not abs(cen[i] - lay["centers"][i]) <= 1e-9 * max(1.0, abs(lay["centers"][i]))
+           for i in range(bank.num_filts)):
+        # reported by `layout` (same test).  Gain, peak and crossings are measured AT the documented centres
+        # and edges; a bank that is laid out elsewhere has nothing to measure there (and its supports may be
+        # so far off that the library loops over millions of periodic images)
+        return core.result([], nontrivial=False, obs="layout_differs", evals=bank.num_filts,
+                           nontrivial_count=0)
     for i in range(bank.num_filts):
         evals += 1
         lo, hi = lay["edges"][i]
@@ -523,7 +570,11 @@ def _response(pt, cap):
 
         # ---- route 1: get_frequency_response on a width whose grid contains the centre
         w, k = centre_width(c, rate)
-        rr = computers.call(bank.get_frequency_response, i, w)
+        rr = limited_call(bank.get_frequency_response, i, w)
+        if rr[0] == "slow":
+            notes.add("abandoned_slow_call")
+            nontriv -= 1
+            break
         if rr[0] != "ok":
             bad("exception", "get_frequency_response(%d, %d) raised %s: %s" % (i, w, rr[1], rr[2]), i,
                 exc=rr[1], route="frequency")
@@ -554,6 +605,9 @@ def _response(pt, cap):
 
         # ---- route 2: DTFT of the impulse response in a wide buffer
         m = measure_ir(bank, b, i, lo, hi, cap)
+        if m[0] == "slow":
+            notes.add("abandoned_slow_call")
+            break
         if m[0] == "skip":
             notes.add("ir_" + m[1])
             continue
@@ -911,6 +965,127 @@ def _c05_alphabet(b, bank):
     return history_alphabet(b, ("freq", "freq_half", "imp"), lambda i: HISTORY_WIDTHS)
 
 
+# ---------------------------------------------------------------- batches of lattice points
+#
+# A bank is a function of its configuration, but the workers of a sub-check evaluate hundreds of points
+# one after the other: a violation that depends on which banks the same process built before (a
+# module-level cache keyed incompletely) would be reported with a case that does not replay.  The points
+# of `layout`, `triangle` and `response` are therefore handed out in batches of consecutive lattice
+# points; a batch is evaluated in ONE forked child of a process that never constructs a bank, and
+# mc.crash.explore_histories gives every violation a case that replays exactly what was executed: the
+# bank alone (confirmed by running it alone in a fresh child) or the batch up to and including it.
+# What earlier constructions leave behind is enumerated systematically by `construction_histories`.
+
+BATCH = {"layout": 256, "triangle": 64, "response": 48}
+
+
+def batches(points, n):
+    return [points[i:i + n] for i in range(0, len(points), n)]
+
+
+def _batch_child(fn):
+    def child(seq):
+        r = core.jsonable(fn(seq[0]))
+        e = int(r.get("evals", 1))
+        return dict(viol=[[v["tags"], v["detail"]] for v in r["viol"]],
+                    obs=[json.dumps(r.get("obs"), sort_keys=True)], evals=e,
+                    nontriv=int(r.get("nontrivial_count", e if r["nontrivial"] else 0)), sample=r.get("sample"))
+    return child
+
+
+def batch_fn(fn):
+    def run(batch):
+        seqs = [[b] for b in batch]
+        viol, results, forks = crash.explore_histories(seqs, _batch_child(fn), dict(batch=batch))
+        obs = sorted(set(o for r in results for o in r["obs"]))
+        return core.result(viol, evals=sum(r.get("evals", 1) for r in results),
+                           nontrivial_count=sum(r.get("nontriv", 0) for r in results), obs=obs, obs_is_set=True,
+                           impl_calls=forks, sample=next((r["sample"] for r in results if r.get("sample")), None))
+    return run
+
+
+def batch_replay(fn):
+    def replay(case):
+        if "kind" not in case:                # a bank alone, in this (fresh) process
+            return fn(case["bank"] if "bank" in case else case)
+        return core.result(crash.replay_history(case, lambda c: [[b] for b in c["batch"]], _batch_child(fn)))
+    return replay
+
+
+# ---------------------------------------------------------------- construction histories in one process
+
+
+def construction_alphabet(tier):
+    """bank configurations whose constructions are combined: every class x every flag combination
+    (gammatone orders 2 and 4), plus, per class, variants that differ from the default-flag configuration
+    in exactly one other argument (scale parameters, rate, number of filters, range)"""
+    base = dict(num_filts=5, low_hz=0.0, sampling_rate=16000)
+    out = []
+    for kind in ALL_KINDS:
+        for fl in flag_sets(kind, (2, 4)):
+            b = dict(base, name=kind)
+            if kind != "fbank":
+                b["scaling_function"] = "mel"
+            b.update(fl)
+            out.append(b)
+    for kind in ALL_KINDS:
+        b0 = dict(base, name=kind)
+        if kind != "fbank":
+            b0["scaling_function"] = "mel"
+            out.append(dict(b0, scaling_function={"name": "linear", "low_hz": 10.0, "slope_hz": 0.5}))
+            out.append(dict(b0, scaling_function="bark"))
+        out.append(dict(b0, sampling_rate=8000))
+        out.append(dict(b0, num_filts=11))
+        out.append(dict(b0, low_hz=100.0, high_hz=6400.0))
+    return out
+
+
+def _construction_seqs(tier, first):
+    alpha = construction_alphabet(tier)
+    return [[alpha[first]]] + [[alpha[first], other] for other in alpha]
+
+
+def _construction_child(cap):
+    def child(seq):
+        """construct the banks of seq in order, keep all of them, then judge each one"""
+        return _construction_judge(seq, cap)
+    return child
+
+
+@quiet
+def _construction_judge(seq, cap):
+    built = [build(b) for b in seq]
+    viol, obs = [], []
+    for j, (b, r) in enumerate(zip(seq, built)):
+        if r[0] != "ok":
+            obs.append("unconstructible")
+            continue
+        others = sorted(set(CLASSNAME[x["name"]] for k, x in enumerate(seq) if k != j))
+        for res in (_layout(b, r[1]), _response(b, cap, r[1])):
+            for v in res["viol"]:
+                viol.append([dict(v["tags"], in_construction_history=True, built_first=(j == 0)),
+                             "%d banks constructed in one process (%s), all alive; bank #%d (%s; others: %s): %s" % (
+                                 len(seq), "; ".join(json.dumps(x, sort_keys=True) for x in seq), j + 1,
+                                 CLASSNAME[b["name"]], ", ".join(others) or "none", v["detail"])])
+            obs.append(str(core.jsonable(res["obs"])))
+    return dict(viol=viol, obs=obs)
+
+
+def _construction_histories(pt, cap):
+    tier, first = pt
+    seqs = _construction_seqs(tier, first)
+    viol, results, forks = crash.explore_histories(seqs, _construction_child(cap), dict(tier=tier, first=first))
+    obs = sorted(set(o for r in results for o in r["obs"]))
+    return core.result(viol, evals=sum(len(q) for q in seqs), nontrivial_count=sum(len(q) for q in seqs if len(q) > 1),
+                       obs=obs, obs_is_set=True, impl_calls=forks,
+                       sample=dict(first_bank=seqs[0][0], inner="alone, then followed by every bank of the alphabet"))
+
+
+def _construction_replay(case, cap):
+    return core.result(crash.replay_history(case, lambda c: _construction_seqs(c["tier"], c["first"]),
+                                            _construction_child(cap)))
+
+
 # ---------------------------------------------------------------- registration
 
 
@@ -965,30 +1140,46 @@ def subchecks(tier, seed):
             "exception text in the samples) and is not a violation: C05 speaks about the filters of a "
             "bank that exists", axes=axes),
         core.SubCheck(
-            "layout", banks, _layout,
-            "every bank of the lattice: centers_hz (and the triangular banks' supports_hz) against the "
+            "layout", batches(banks, BATCH["layout"]), batch_fn(_layout),
+            "every bank of the lattice (points = batches of consecutive banks, one forked child per batch): "
+            "centers_hz (and the triangular banks' supports_hz) against the "
             "documented layout recomputed with independent scale formulas, rtol 1e-9; strictly increasing; "
             "centre strictly inside supports_hz. evaluations = filters; trivial = constructor raised "
             "(unconstructible, counted, not a violation)",
-            axes=axes, replay=_replay_bank(_layout)),
+            axes=dict(axes, banks=len(banks), batch=BATCH["layout"]), replay=batch_replay(_layout), chunk=1),
         core.SubCheck(
-            "triangle", tri_banks, _triangle,
-            "triangular / Fbank banks x every filter x widths %r: every DFT bin equals the documented "
+            "triangle", batches(tri_banks, BATCH["triangle"]), batch_fn(_triangle),
+            "(points = batches of consecutive banks) triangular / Fbank banks x every filter x widths %r: every DFT bin equals the documented "
             "triangle (Fbank: squared response vs triangle in mel), atol 1e-12; non-trivial = the "
             "triangle has a non-zero bin" % (TRI_WIDTHS,),
-            axes=dict(axes, width=list(TRI_WIDTHS)), replay=_replay_bank(_triangle)),
+            axes=dict(axes, width=list(TRI_WIDTHS), banks=len(tri_banks), batch=BATCH["triangle"]),
+            replay=batch_replay(_triangle), chunk=1),
         core.SubCheck(
-            "response", resp_banks, lambda b: _response(b, cap),
-            "every filter of every bank: gain 1 +- 4 eps at the centre (or ||h||2 = 1 +- 4 eps), peak within "
+            "response", batches(resp_banks, BATCH["response"]), batch_fn(lambda b: _response(b, cap)),
+            "(points = batches of consecutive banks) every filter of every bank: gain 1 +- 4 eps at the centre (or ||h||2 = 1 +- 4 eps), peak within "
             "one grid step, |H|^2 in [0.5 - 4 eps, 10^-0.3 + 4 eps] at both band edges (erb=False), ERB = "
             "edge spacing +- 1%% (erb=True); DTFT of a wide impulse response and get_frequency_response. "
             "non-trivial = documented support spans < rate/2 (others are outside the property's domain)",
             axes=dict(axes, extra_num_filts="quick: + 40 filters (mel, 16 kHz, Gabor / gammatone)", ir_cap=cap,
-                      boundary_part="triangular / Fbank only",
+                      boundary_part="triangular / Fbank only", banks=len(resp_banks), batch=BATCH["response"],
                       scale_parameters="every re-parameterised scale x Triangular / Gabor / gammatone x rates "
                                        "%r x (low, high) x flags; quick: num_filts {3, 11}, gammatone orders "
                                        "{2, 4}" % (RATES,)),
-            replay=_replay_bank(lambda b: _response(b, cap))),
+            replay=batch_replay(lambda b: _response(b, cap)), chunk=1),
+        core.SubCheck(
+            "construction_histories", [(tier, i) for i in range(len(construction_alphabet(tier)))],
+            lambda pt: _construction_histories(pt, cap),
+            "constructions in ONE process: an alphabet of %d bank configurations (4 classes x every flag "
+            "combination, gammatone orders 2 and 4, mel, 5 filters, 16 kHz; per class variants with a "
+            "re-parameterised linear scale, the bark scale, rate 8000, 11 filters, range 100..6400 Hz); per "
+            "point one first bank, alone and followed by EVERY bank of the alphabet (ordered pairs, the pair "
+            "of equal configurations included), the histories of a point one after the other in one forked "
+            "child of a process that never built a bank; both banks stay alive and are judged after the second "
+            "is built, by the oracles of `layout` and `response`; the first violation of every signature is "
+            "confirmed by running its history alone in a fresh child. evaluations = banks judged; non-trivial "
+            "= banks of two-bank histories" % len(construction_alphabet(tier)),
+            axes=dict(alphabet=construction_alphabet(tier), depth=2),
+            replay=lambda case: _construction_replay(case, cap), kind="histories", chunk=1),
         core.SubCheck(
             "reject", reject_points(tier), _reject,
             "4 classes x scales x num_filts {1,5} x rates %r x {low in {-1,-1e-9} x 5 highs; positive high in "
